@@ -14,6 +14,7 @@ GENERATORS = [storeconsts.generate]
 LEAN_MODULES = ["FimVerif.Proofs.C05"]
 P = "FimVerif.C05."
 THEOREMS = [P + t for t in ("identity_unset_refused", "identity_names_listed", "class_update_refused",
+                              "class_update_refused_step", "none_value_refused", "bulk_update_stores_every_value",
                               "identity_props_protected", "identity_merge_class_counterexample",
                               "add_node_existing_id_refused", "nid_unique", "nid_unique_reachable",
                               "merge_keeps_edges", "merge_policy", "merge_failure_atomic",
@@ -31,13 +32,15 @@ TRUSTED_BASE = [
     "the stores' threading.Lock is replaced by a counting stand-in in single-threaded histories (locks are C20's)",
 ]
 ASSUMPTIONS = [
-    "property values are strings; updates never write GraphID or NodeID (re-homing is C14's; the disjoint store cannot express it)",
+    "property values are any JSON value without floats (str, None, '', 0, False, ints, bools, lists, dicts); updates never write "
+    "GraphID or NodeID (re-homing is C14's; the disjoint store cannot express it); non-string values are never compared with "
+    "each other by the modelled code paths (python's 1 == True is not modelled)",
     "merge_nodes is called with another graph id than the caller's; on the disjoint backend it raises RuntimeError as documented "
     "and lock-step comparison of that backend stops at the first successful merge",
     "imports and clones are C04's (the backends deliberately differ there: replace vs. warn-and-skip)",
 ]
 RULE = ("corpus first, then state-aware operation histories (depth <= 40) plus every continuation of depth 2 (quick) / 3 (thorough) of a "
-        "fixed two-graph prefix over a 43-operation alphabet; 3 graph ids, "
+        "fixed two-graph prefix over a 53-operation alphabet; 3 graph ids, "
         "4 node ids, 3 classes, 2 relations, property names {Name, Type, Class, NodeID, GraphID (unset only), p, q}; non-trivial = "
         ">= 2 graphs touched and >= 1 failing call; distinct by op-kind sequence")
 
@@ -162,6 +165,8 @@ class Ref:
             else:
                 self.E.append([na, nb, d])
         elif op == "update_node_property":
+            if a[2] is None:
+                raise RefErr("assertion")       # a single-value update is never handed None
             if a[1] == LABEL:
                 raise RefErr("query")
             self.find(g, a[0])[a[1]] = a[2]
@@ -173,6 +178,8 @@ class Ref:
                 raise RefErr("query")
             del n[a[1]]
         elif op == "update_nodes_property":
+            if a[1] is None:
+                raise RefErr("assertion")
             if not G or a[0] == LABEL:
                 raise RefErr("query")
             for n in G:
@@ -182,6 +189,8 @@ class Ref:
                 raise RefErr("query")
             self.find(g, a[0]).update(a[1])
         elif op == "update_link_property":
+            if a[4] is None:
+                raise RefErr("assertion")
             if a[3] == LABEL:
                 raise RefErr("query")
             self.link(g, a[0], a[1], a[2])[2][a[3]] = a[4]
@@ -395,6 +404,11 @@ def node_table(be):
     return {(key, n): dict(d) for key, G in be._graphs() for n, d in G.nodes(data=True)}
 
 
+def edge_table(be):
+    """internal identity of a link (store key, unordered endpoint ids) -> attribute dict (copy)"""
+    return {(key, min(a, b), max(a, b)): dict(d) for key, G in be._graphs() for a, b, d in G.edges(data=True)}
+
+
 def neighbours(be, g, nid):
     """[(NodeID of neighbour, sorted edge props)] of the node nid of graph g, read off the raw store"""
     out = []
@@ -421,6 +435,9 @@ def check_history(h, res, with_ref=True):
     for k, req in enumerate(h):
         op = req[0]
         tbl = node_table(sh)
+        tbl_dj = node_table(dj) if dj_live else None
+        etbl = edge_table(sh)
+        etbl_dj = edge_table(dj) if dj_live else None
         uniq_before = {g: nid_unique(sh, g) for g in universe}
         if op == "merge_nodes":
             nb_mine = neighbours(sh, req[1], req[2])
@@ -464,8 +481,11 @@ def check_history(h, res, with_ref=True):
                             expected=ref.content(g), observed=sh.content(g))
                         ref = None
                         break
-        # (c) identity properties never removed, class never changed (nodes tracked by internal identity)
-        for be_, t0 in ((sh, tbl),):
+        # (c) identity properties never removed, class never changed: every node of every graph, tracked by internal
+        #     identity, on both backends, after every call whatever it returned; links keep their Class property
+        for be_, t0, e0, tag in ((sh, tbl, etbl, "shared"), (dj, tbl_dj, etbl_dj, "disjoint")):
+            if t0 is None:
+                continue
             t1 = node_table(be_)
             for ident, d0 in t0.items():
                 d1 = t1.get(ident)
@@ -477,10 +497,16 @@ def check_history(h, res, with_ref=True):
                         continue      # the caller re-homes / re-keys the node through the policy (outside the alphabet)
                 for p in IDENT:
                     if p in d0 and p not in d1:
-                        bad("identity:%s:%s-removed" % (op, p), "%s removed identity property %s from a node" % (op, p), k)
+                        bad("identity:%s:%s-removed" % (op, p), "%s removed identity property %s from a node (%s store)" % (op, p, tag), k,
+                            expected=d0, observed=d1)
                 if d0.get("Class") != d1.get("Class"):
                     bad("identity:%s:class-changed" % op, "%s changed the class of a node" % op, k,
                         expected=d0.get("Class"), observed=d1.get("Class"))
+            e1 = edge_table(be_)
+            for ident, d0 in e0.items():
+                d1 = e1.get(ident)
+                if d1 is not None and "Class" in d0 and "Class" not in d1:
+                    bad("identity:%s:link-Class-removed" % op, "%s removed the Class of a link (%s store)" % (op, tag), k)
         if r_sh[0] == "ok" and op in ("unset_node_property",) and req[3] in IDENT:
             bad("identity:unset:%s-accepted" % req[3], "unset of identity property %s was accepted" % req[3], k)
         if r_sh[0] == "ok" and op in ("update_node_property", "update_link_property") and req[-2] == "Class":
@@ -505,8 +531,6 @@ def check_history(h, res, with_ref=True):
                 if extra:
                     bad("merge:edge-foreign-key:%s" % sorted(extra)[0], "after merge_nodes an edge carries a property neither edge had", k,
                         observed=sorted(extra))
-                if not all(isinstance(v, (str, type(None), list)) for v in d.values()):
-                    bad("merge:edge-value-type", "after merge_nodes an edge property is not a plain value", k)
             mine, theirs = props_mine[0], props_theirs[0]
             now = [d for d in node_table(sh).values() if d.get("GraphID") == mine.get("GraphID") and d.get("NodeID") == req[2]]
             pol = req[4] or {}
@@ -553,6 +577,11 @@ def small_alphabet():
         A.append(["unset_node_property", g, "n1", "Name"])
         A.append(["update_nodes_property", g, "Class", "y"])
         A.append(["update_node_properties", g, "n2", {"Type": "x", "q": ""}])
+        A.append(["update_node_properties", g, "n1", {"p": "y", "Name": None, "Type": 0}])
+        A.append(["update_node_property", g, "n1", "Name", None])
+        A.append(["update_nodes_property", g, "Type", False])
+        A.append(["update_link_properties", g, "n1", "n2", "has", {"p": None, "q": ["a", "b", "c"]}])
+        A.append(["update_link_property", g, "n1", "n2", "has", "p", {"k": "v"}])
         A.append(["update_link_property", g, "n2", "n1", "has", "Class", "connects"])
         A.append(["update_link_property", g, "n1", "n2", "has", "p", "y"])
         A.append(["unset_link_property", g, "n1", "n2", "has", "Class"])
